@@ -126,7 +126,7 @@ pub fn run(ctx: &Ctx) {
             v.push(x.mul(&x).0);
             v.push(x.mul(&x).mul(&Zl::from_u64(2)).0);
         }
-        v.truncate(if quick { 80 } else { 400 });
+        v.truncate(if quick { 200 } else { 400 });
         v
     };
     let stats = std::sync::Mutex::new([0u64; 2]);
